@@ -98,13 +98,42 @@ func (c Case) coq() string {
 			noCode[s.N] = true
 		}
 	}
-	if c.Discard != "" || c.Kind == "lagfull" || c.Kind == "lagdrop" || c.Kind == "audience" {
-		return "([], [])" // judged by the oracle only (lagfull) or discarded; kept so that case numbers stay aligned
+	if c.Discard != "" {
+		return "(0%N, [], [])" // discarded; kept so that case numbers stay aligned
+	}
+	// how the model judges the case (Corr/C03.v): 0 exact, 1 contained in what readers that keep up would
+	// get (outcome depends on the hub's order: lagging readers that are dropped), 2 exact, large population
+	mode := 0
+	switch c.Kind {
+	case "lagfull", "lagdrop":
+		mode = 1
+	case "audience":
+		mode = 2
 	}
 	ops := []string{}
-	for _, o := range c.Ops {
-		if !noCode[o.N] && (o.K == "join" || o.K == "leave" || o.K == "send") {
+	for i := 0; i < len(c.Ops); i++ {
+		o := c.Ops[i]
+		if noCode[o.N] {
+			continue
+		}
+		switch o.K {
+		case "join", "leave":
 			ops = append(ops, o.coq())
+		case "abort": // the connection is gone from then on
+			ops = append(ops, lib.App("OLeave", lib.N(o.N)))
+		case "send":
+			// a run of sends by one connection with consecutive ids is written as one op (mode 1 only:
+			// thousands of them, and neither type nor size matter there)
+			j := i
+			for mode == 1 && j+1 < len(c.Ops) && c.Ops[j+1].K == "send" && c.Ops[j+1].N == o.N && c.Ops[j+1].ID == c.Ops[j].ID+1 {
+				j++
+			}
+			if j > i+3 {
+				ops = append(ops, lib.App("OSendRun", lib.N(o.N), lib.N(uint64(o.MT)), lib.N(3000), lib.N(o.ID), lib.Nat(j-i+1)))
+				i = j
+			} else {
+				ops = append(ops, o.coq())
+			}
 		}
 	}
 	seen := []string{}
@@ -118,7 +147,7 @@ func (c Case) coq() string {
 		}
 		seen = append(seen, lib.Tuple(lib.N(s.N), lib.Bool(s.Joined), lib.Str(s.Topic), lib.List(ids)))
 	}
-	return lib.Tuple(lib.List(ops), lib.List(seen))
+	return lib.Tuple(lib.N(uint64(mode)), lib.List(ops), lib.List(seen))
 }
 
 // topic families: spellings that share prefixes, differ by one segment / one character / case,
@@ -1024,7 +1053,7 @@ func main() {
 		res.Count("colliding-topic-pairs-available:" + hp.hash)
 	}
 	res.Evaluations = len(cases)
-	res.ShardSize = 40
+	res.ShardSize = 20
 	if _, err := lib.WriteShards(a.Out, "From Relay Require Import Base.Prelude Model.Hub Corr.C03.", "case", coq, res.ShardSize); err != nil {
 		fmt.Fprintln(os.Stderr, err)
 		os.Exit(2)
